@@ -127,20 +127,82 @@ func parseValues(raw string, o *Obl) map[string]string {
 	if i < 0 {
 		return nil
 	}
-	txt := raw[i:]
-	m := map[string]string{}
-	byTerm := map[string]string{}
-	for _, v := range o.Values {
-		byTerm[v.T.S] = v.Name
+	txt := raw[i+len("@@values"):]
+	// the answer to (get-value (t1 ... tn)) is ((t1 v1) ... (tn vn)) in the order asked: read the pairs positionally
+	pos := strings.Index(txt, "(")
+	if pos < 0 {
+		return nil
 	}
-	for _, mm := range valueRe.FindAllStringSubmatch(txt, -1) {
-		name := mm[1]
-		val := strings.ReplaceAll(strings.ReplaceAll(mm[2], "(- ", "-"), ")", "")
-		if n, ok := byTerm[name]; ok {
-			m[n] = val
-		} else {
-			m[name] = val
+	pos++ // inside the outer list
+	m := map[string]string{}
+	readSexp := func() (string, bool) {
+		for pos < len(txt) && (txt[pos] == ' ' || txt[pos] == '\n' || txt[pos] == '\t' || txt[pos] == '\r') {
+			pos++
 		}
+		if pos >= len(txt) || txt[pos] == ')' {
+			return "", false
+		}
+		start := pos
+		if txt[pos] == '(' {
+			depth := 0
+			for pos < len(txt) {
+				if txt[pos] == '(' {
+					depth++
+				} else if txt[pos] == ')' {
+					depth--
+					if depth == 0 {
+						pos++
+						break
+					}
+				} else if txt[pos] == '|' {
+					pos++
+					for pos < len(txt) && txt[pos] != '|' {
+						pos++
+					}
+				}
+				pos++
+			}
+			return txt[start:pos], true
+		}
+		if txt[pos] == '|' {
+			pos++
+			for pos < len(txt) && txt[pos] != '|' {
+				pos++
+			}
+			pos++
+			return txt[start:pos], true
+		}
+		for pos < len(txt) && !strings.ContainsRune(" \n\t\r()", rune(txt[pos])) {
+			pos++
+		}
+		return txt[start:pos], true
+	}
+	for k := 0; k < len(o.Values); k++ {
+		pair, ok := readSexp()
+		if !ok || len(pair) < 2 {
+			break
+		}
+		// split the pair: the value is its last top-level element
+		inner := strings.TrimSpace(pair[1 : len(pair)-1])
+		depth, cut := 0, -1
+		for j := 0; j < len(inner); j++ {
+			switch inner[j] {
+			case '(':
+				depth++
+			case ')':
+				depth--
+			case ' ', '\n':
+				if depth == 0 {
+					cut = j
+				}
+			}
+		}
+		if cut < 0 {
+			continue
+		}
+		val := strings.TrimSpace(inner[cut+1:])
+		val = strings.ReplaceAll(strings.ReplaceAll(val, "(- ", "-"), ")", "")
+		m[o.Values[k].Name] = val
 	}
 	return m
 }
